@@ -619,7 +619,10 @@ Inductive sop :=
 | OTamper (n : name) (ext : Z) (data : list Z)   (* overwrite a staged body: 0 part 1 full 2 wait *)
 | OImage (img : stage)                          (* process death: the durable state found on disk, volatile state gone *)
 | OCleanCache (now : Z)                         (* cleanCache (runs after every 1000th cache entry) *)
-| OAgeAll (d : Z).                              (* d seconds pass *)
+| OAgeAll (d : Z)                               (* d seconds pass *)
+| OBuildCache (now from : Z).                   (* the receive log is read back to [from] (Receive does it before
+                                                   its duplicate check, fix "Receive reads the log back": the
+                                                   driver issues it before every part) *)
 
 Inductive sout :=
 | RNone | RBool (b : bool) | RNum (z : Z) | RScan (l : list (name * comp)).
@@ -649,4 +652,5 @@ Definition sstep (H : list Z -> name) (s : stage) (op : sop) : stage * sout :=
   | OImage img => (crash img, RNone)
   | OCleanCache now => (clean_cache s now, RNone)
   | OAgeAll d => (age_all s d, RNone)
+  | OBuildCache now from => (build_cache s now from, RNone)
   end.
